@@ -20,6 +20,7 @@ let step_oracles (bump : str -> unit) (pre : vt) (f : func) (post : vt) : (str *
   chk "C17" "saved" (holds_C17 pre f post);
   chk "C18" "tabs" (holds_C18 pre f post);
   chk "C19" "ris" (holds_C19 pre f post);
+  chk "C03" "sgr_params_as_written" (holds_C03_sgr f post);
   !r
 
 (* chunk of characters that emitted no function *)
